@@ -53,7 +53,7 @@ func (w *verifWorld20) op(k int, label string) {
 	case 0:
 		zz.Note("op OpenChannel(chC)")
 		req := verifArbitraryRequest(label + ".open")
-		req.TransferId = 3
+		zz.SetInt(&req.TransferId, 3)
 		_ = w.t.OpenChannel(ctx, p, w.chC, verifLink(label+".root"), zz.Node(label+".sel"), nil, req)
 		zz.Reach("opened")
 	case 1:
@@ -99,7 +99,7 @@ func (w *verifWorld20) op(k int, label string) {
 		zz.Note("op gsReqRecdHook(restart of chB)")
 		// the remote restarts its pull: a new graphsync request for channel B
 		req := verifArbitraryRequest(label + ".ireq")
-		req.TransferId = 2
+		zz.SetInt(&req.TransferId, 2)
 		w.t.gsReqRecdHook(p, verifReqWith(w.rC, req), &verifActions{})
 	case 13:
 		zz.Note("op gsCompletedResponseListener(rB)")
@@ -108,14 +108,14 @@ func (w *verifWorld20) op(k int, label string) {
 		zz.Note("op gsRequestUpdatedHook(rB)")
 		upd := verifReq(w.rB)
 		req := verifArbitraryRequest(label + ".ureq")
-		req.TransferId = 2
+		zz.SetInt(&req.TransferId, 2)
 		upd.exts[extension.ExtensionDataTransfer1_1] = verifReqToIPLD(req)
 		w.t.gsRequestUpdatedHook(p, verifReq(w.rB), upd, &verifActions{})
 	case 15:
 		zz.Note("op gsIncomingResponseHook(rA)")
 		resp := &verifRespData{id: w.rA, exts: map[graphsync.ExtensionName]ipld.Node{}}
 		r := verifArbitraryResponse(label + ".resp")
-		r.TransferId = 1
+		zz.SetInt(&r.TransferId, 1)
 		resp.exts[extension.ExtensionDataTransfer1_1] = verifRespToIPLD(r)
 		w.t.gsIncomingResponseHook(p, resp, &verifActions{})
 	case 16:
